@@ -43,7 +43,7 @@ def run(prog, rep, tier):
     # a categorical response (plain variable or call) gets its level order by the same code as any categorical term:
     # sorted for undeclared data, the declared order otherwise (C04's R4.3, reported here as R15.2)
     from . import C04
-    sub = type(rep)(rep.prop)
+    sub = rep.sub()
     C04.r4_3(prog, sub)
     for it in sub.items:
         it = dict(it)
@@ -51,6 +51,9 @@ def run(prog, rep, tier):
         rep.items.append(it)
         rep.counts["R15.2"] = rep.counts.get("R15.2", 0) + 1
     from . import shared
+    # "the response must be a single term" counts terms after `+` has merged equal ones: two different subsets y[a] + y[b]
+    # must stay two terms, i.e. the identity of terms and variables must not lose the level (C02's R2.1, reported as R15.1)
+    shared.eq_compares_fields(prog, rep, "R15.1", ["terms.terms.Term", "terms.variable.Variable", "terms.call.Call"])
     shared.dtype_narrowing(prog, rep, "R15.7", fns={q for q in prog.functions if q.startswith("formulae.transforms.")})
     rep.floor("R15.1", 3)
     rep.floor("R15.2", 5)
@@ -248,7 +251,7 @@ def r15_5(prog, rep):
 def r15_6(prog, rep):
     from . import C16
 
-    sub = type(rep)(rep.prop)
+    sub = rep.sub()
     C16.r16_6(prog, sub)
     C16.r16_4(prog, sub)
     for it in sub.items:
